@@ -65,9 +65,14 @@ TRUSTED_BASE = [
     "order semantically and pins every statement of the three routines as text",
     "the `boxbounds.sum() != 0` decision is judged only when the exact sum is ≥ 1e-6 away from 0 or the float sum is exactly 0 "
     "too; weights below 1e-6 (written as 0.000000) are not judged for positivity; faces smaller than 1e-4 are below the "
-    "resolution of voro++ itself (observed once in ≈130 frames: a sliver of area 7e-6 reported from one of the two cells only, 3-D, "
-    "14 particles) and are neither matched nor judged for symmetry / equal weights — such inputs are not in general position; "
-    "inputs on which freud breaks its contract otherwise are counted and skipped (none observed)",
+    "resolution of voro++ (slivers of area 1e-8 … 7e-6 are reported from one cell, both or none) and are neither matched nor "
+    "judged for symmetry / equal weights",
+    "freud DOES break its contract on rare 3-D inputs: a genuine face (area 3e-4 … 2.4e-3, present for both cells in an "
+    "independent float64 Qhull tessellation of 27 periodic copies) is reported from one of the two cells only (4 of 1500 generated "
+    "3-D cases, never in 2-D).  The raw-output monitor attributes it to freud, the files are still compared token for token and "
+    "shown to mirror freud's list, and the resulting asymmetry of the written relation is the LISTED finding "
+    "C20:cal_neighbors:freud-one-sided-face (corpus/C20/freud-one-sided-face.json runs first on every run).  Inputs on which "
+    "freud breaks shapes / order / coverage / volume sum would be counted and skipped (none observed)",
     "not covered: partially written files when the guard raises, negative nconfig, an `ndim` argument different from the "
     "data's dimensionality, triclinic boxes (the property says orthogonal), N < 4",
 ]
